@@ -45,15 +45,15 @@ type rvar struct {
 }
 
 type rgen struct {
-	r      *rand.Rand
-	vars   []rvar
-	n      int
-	loops  int // loop nesting
-	sb     strings.Builder
-	used   map[string]bool
-	liberal bool  // C02: control flow outside the subset is allowed (returns, break/continue and else-if chains anywhere, shadowing, assignment to := variables)
-	inject string // C02: construct to inject once ("" = none)
-	done   bool   // injected already
+	r       *rand.Rand
+	vars    []rvar
+	n       int
+	loops   int // loop nesting
+	sb      strings.Builder
+	used    map[string]bool
+	liberal bool   // C02: control flow outside the subset is allowed (returns, break/continue and else-if chains anywhere, shadowing, assignment to := variables)
+	inject  string // C02: construct to inject once ("" = none)
+	done    bool   // injected already
 }
 
 const randPrelude = `func hAdd(a uint64, b uint64) uint64 {
